@@ -228,6 +228,10 @@ svx_read_header	(SF_PRIVATE *psf)
 					else
 						psf_log_printf (psf, " BODY : %D\n", psf->datalength) ;
 
+					/* Only set dataend if there really is data at the end (the IFF pad byte, further chunks). */
+					if (psf->dataoffset + psf->datalength < psf->filelength)
+						psf->dataend = psf->dataoffset + psf->datalength ;
+
 					parsestage |= HAVE_BODY ;
 
 					if (! psf->sf.seekable)
